@@ -147,9 +147,38 @@ def rule_prec(facts):
     return r
 
 
+VALIDITY_INDEXED = ("is_valid", "set_valid", "set_invalid")
+SEL_THROUGH = ("::unwrap", "::expect", "::branch", "::unwrap_or", "::unwrap_unchecked", "::copied", "::cloned")
+
+
+def rule_idxspace(facts):
+    """An array has two index spaces: the logical row (what the validity mask and the selection are indexed by) and the physical
+    slot of the buffer (what `selection.get(row)` returns; dictionary / constant / filtered arrays make them differ). A physical
+    index used to probe or set validity reads the bit of another row whenever the array is not flat."""
+    r = RuleResult("C05-IDXSPACE", "the row index given to Validity::is_valid/set_valid/set_invalid is never the result of Selection::get (a physical "
+                   "buffer slot): validity is per logical row", floor=60)
+    for rec in facts.all_fns(["glaredb_core", "glaredb_ext_parquet", "glaredb_ext_csv"]):
+        if "Validity" not in str(rec["bbs"]):
+            continue
+        fn = Fn(rec)
+        for c in fn.calls():
+            if "validity::Validity::" not in c.name or c.name.rsplit("::", 1)[-1] not in VALIDITY_INDEXED or len(c.args) < 2:
+                continue
+            r.functions.add(fn.id)
+            r.call_sites += 1
+            o = fn.origin(c.args[1], at=c.bb, through_calls=SEL_THROUGH)
+            phys = o[0] == "call" and "selection::Selection" in o[1].name and o[1].name.endswith("::get")
+            r.inst({"fn": fn.id, "line": c.line, "call": c.name.rsplit("::", 1)[-1], "index_from": (o[1].name.rsplit("::", 2)[-2:] if o[0] == "call" else o[0])}, not phys)
+            if phys:
+                r.violate(fn.id, f"physical-index-into-validity:{c.name.rsplit('::', 1)[-1]}",
+                          f"`{c.name.rsplit('::', 1)[-1]}` at line {c.line} is given the slot returned by Selection::get (line {o[1].line}); the validity mask is indexed by "
+                          "the logical row, so for dictionary / constant / filtered arrays the NULL-ness of a different row is used", rec["file"], c.line)
+    return r
+
+
 def run(ctx):
     facts = ctx["facts"]
-    return [rule_null(facts), rule_prec(facts)]
+    return [rule_null(facts), rule_prec(facts), rule_idxspace(facts)]
 
 
 CLAIM = {
